@@ -21,17 +21,26 @@ TRUSTED_BASE = ['props/C06.py reference parser for the ground syntax (oracle on 
                 'std::ostream formatting of int/unsigned modelled by Lib/Dec.v print_Z/print_nat']
 ASSUMPTIONS = ['atoms in 1..2^31-1, literals/weights/bounds/priorities in the range of int, enum arguments within their enum; named atoms are small '
                '(AspifTextOutput::addAtom allocates a table of size atom+1)',
-               'names and #show terms are ground terms that do not collide with the spelling of another atom (theorems: identifiers with optional argument list)',
+               'names and #show terms are ground terms that do not collide with the spelling of another atom (theorems: identifiers with optional argument list; theory atoms: unambiguous spelling Spec.unamb_ta)',
                'theory terms are acyclic; compound/tuple codes are term ids or -1..-3; theory atom ids and term/element ids are small',
                'an atom is not both named by an output directive and defined by a theory atom (the writer refuses this with a logic_error: reported as known finding)']
 TECHNIQUE = 'Coq proof about an executable model (renderer + reference parser) + differential correspondence with the implementation'
 DESIGN_REF = 'DESIGN.md section 5, C06'
-LEVEL_TEXT = ('Machine-checked proof (Coq) that a reference parser for the ground syntax, applied to the text the modelled writer emits for a step, '
-              'returns one statement per directive in order with equal heads/kinds/priorities/values/modifiers/conditions and satisfaction-equivalent bodies; '
-              'the model is tied to AspifTextOutput by byte-exact differential correspondence and an independent python reference parser on the implementation.')
-LEVEL_NOTE = ('Theorems are stated for theory-free steps whose names are identifiers with optional argument lists (partial); theory atoms are covered by '
-              'model + correspondence + oracle, and the full statement for them is refuted in Coq (c06_theory_structure_refuted = known finding). '
-              'Trusted: Coq kernel, extraction (cross-checked), harness, translator, python oracle.')
+LEVEL_TEXT = ('Machine-checked proof (Coq) that a reference parser for the ground syntax - rules, directives and theory atoms (&name{terms : cond; ..} op rhs '
+              'with numbers, symbols, function terms, the three tuple kinds, prefix and infix operator terms) - applied to the text the modelled writer '
+              'emits for a step returns one fact per directive theory atom and one statement per directive in order, with equal heads/kinds/priorities/'
+              'values/modifiers/conditions, satisfaction-equivalent bodies, and at every atom position of a theory atom the term structure, element '
+              'conditions and guard stored in the theory tables; that rendering never faults on any valid program incl. referentially consistent acyclic '
+              'theory data (the fuel |terms|+1 of the term printer is proved sufficient); the model is tied to AspifTextOutput by byte-exact differential '
+              'correspondence and an independent python reference parser on the implementation.')
+LEVEL_NOTE = ('c06_total is full (all valid programs; excluded only: an atom that is both named and a theory atom = known finding 1). The parse-back theorems '
+              'keep the suffix _partial: they cover theory atoms whose spelling is unambiguous (Spec.unamb_ta: no operator term directly below an operator '
+              'term, no "-"/prefix operator in front of a number it would merge with, operators free of the separators . : ; |, identifiers as symbols and '
+              'function names) with element conditions over plainly named atoms that are not theory atoms of the step, and no theory atom in a weighted '
+              'literal list; names / #show terms are identifiers with optional argument lists. Every excluded ambiguous shape has a Coq witness '
+              '(c06_theory_structure_refuted, c06_theory_minus_refuted, c06_theory_separator_op_refuted, c06_theory_condition_spelling_refuted, '
+              'c06_theory_named_atom_refuted) and a known-finding signature in the oracle; quoted-string symbols and the other excluded shapes are covered by '
+              'model + correspondence + oracle only. Trusted: Coq kernel, extraction (cross-checked), harness, translator, python oracle.')
 
 HEU = ['level', 'sign', 'factor', 'init', 'true', 'false']
 OPS = '/!<=>+-*\\?&@|:;~^.'
@@ -44,7 +53,9 @@ class Bad(Exception):
     pass
 
 
-NESTED = []
+NESTED = []          # signatures of ambiguous spellings met while rendering (soft: the judgement goes on)
+AMBIG_SIGS = ('theory-nested-operator-ambiguous', 'theory-minus-number-ambiguous', 'theory-separator-operator-ambiguous')
+SEP_OPS = '.:;|'     # operator characters that are separators of the ground syntax
 
 
 def cstr(b):
@@ -77,7 +88,17 @@ def t_term(terms, i, depth=0):
                 ta = terms.get(a)
                 if ta and ta[0] == 'c' and ta[1] >= 0 and len(ta[2]) in (1, 2) and ta[1] in terms and terms[ta[1]][0] == 's' \
                         and (cstr(terms[ta[1]][1]) == '' or cstr(terms[ta[1]][1])[0] in OPS):
-                    NESTED.append(1)
+                    NESTED.append('theory-nested-operator-ambiguous')
+            # further spellings that do not determine the structure (Coq: Spec.unamb, c06_theory_minus_refuted /
+            # c06_theory_separator_op_refuted): "-" in front of a number is also the sign of a negative number, a negative
+            # number behind a prefix operator extends the operator; an operator made of separator characters (" : " is also
+            # the condition separator, ";" the element separator, "." the terminator, "|" the head separator)
+            if len(args) == 1:
+                ta = terms.get(args[0])
+                if ta and ta[0] == 'n' and (ta[1] < 0 or cstr(f[1]) == '-'):
+                    NESTED.append('theory-minus-number-ambiguous')
+            if any(ch in SEP_OPS for ch in cstr(f[1])):
+                NESTED.append('theory-separator-operator-ambiguous')
         if isop and len(args) == 1:
             return fs + t_term(terms, args[0], depth + 1)
         if isop and len(args) == 2:
@@ -395,8 +416,9 @@ def step_oracle(calls, text, st):
                 chosen.setdefault(a['atom'], s)
     except Bad as e:
         return ['oracle-theory-not-renderable:%s' % e]
-    if NESTED:
-        sig.append('theory-nested-operator-ambiguous')
+    for x in AMBIG_SIGS:
+        if x in NESTED:
+            sig.append(x)
     allt = [s for v in tnames.values() for s in v] + [n for v in given.values() for n in v if n.startswith('&')]
     try:
         stmts = P(text, allt).program()
@@ -498,9 +520,9 @@ def step_oracle(calls, text, st):
             s = nxt()
             if s[0] != 'edge' or (s[1], s[2]) != (c[1], c[2]) or not lits_ok(c[3], s[3]):
                 sig.append('edge-differs'); break
-    if [x for x in sig if x != 'theory-nested-operator-ambiguous'] == [] and k != len(stmts):
+    if [x for x in sig if x not in AMBIG_SIGS] == [] and k != len(stmts):
         sig.append('extra-statements')
-    if [x for x in sig if x != 'theory-nested-operator-ambiguous'] == []:
+    if [x for x in sig if x not in AMBIG_SIGS] == []:
         for a, name in pending_names:
             if a in chosen and chosen[a] != name:
                 sig.append('output-name-lost')
@@ -604,7 +626,7 @@ def oracle(case, obs):
         # model; compare the whole text against the concatenated directives with per-step theory reset
         pos = 0
         soft = []
-        SOFT = {'theory-nested-operator-ambiguous'}
+        SOFT = set(AMBIG_SIGS)
         for sdirs in steps:
             st['terms'], st['elems'], st['tatoms'], st['frame'] = {}, {}, [], 0
             # find the longest prefix of the remaining lines that this step accounts for: number of statements is known
@@ -843,6 +865,12 @@ FIXED = [
     ([(1, False), (2,), (14, 0, b'+'), (14, 1, b'*'), (13, 2, 1), (13, 3, 2), (13, 4, 3), (15, 5, 0, [2, 3]), (15, 6, 1, [5, 4]), (15, 7, 1, [3, 4]),
       (15, 8, 0, [2, 7]), (16, 0, [6], []), (16, 1, [8], []), (17, 0, 0, [0]), (17, 0, 0, [1]), (3,)], 'theory-nested-operators'),
     ([(1, False), (2,), (14, 0, b'p'), (16, 0, [0], [8]), (17, 7, 0, [0]), (17, 8, 0, []), (4, 0, [7], [8]), (3,)], 'theory-condition-spelling'),
+    # "&p{-5}." twice: the number -5 and the prefix operator - applied to 5
+    ([(1, False), (2,), (14, 0, b'p'), (13, 1, -5), (13, 2, 5), (14, 3, b'-'), (15, 4, 3, [2]), (16, 0, [1], []), (16, 1, [4], []),
+      (17, 0, 0, [0]), (17, 0, 0, [1]), (3,)], 'theory-minus-number'),
+    # "&p{1 : a}." : the term 1:a (infix operator ":") - the same text as the term 1 under the condition a
+    ([(1, False), (2,), (14, 0, b'p'), (13, 1, 1), (14, 2, b':'), (14, 3, b'a'), (15, 4, 2, [1, 3]), (16, 0, [4], []), (17, 0, 0, [0]), (3,)],
+     'theory-separator-operator'),
 ]
 
 
